@@ -170,7 +170,12 @@ func c15Stacks(t *testing.T) {
 			res.Violate("same-stack-value", fmt.Sprintf("counter value %d after two Incs", v), replay)
 		}
 		spcs := sc.stacks[0].pcs
-		_ = pcs
+		if len(spcs) != len(pcs) {
+			res.Violate("stack-depth", fmt.Sprintf("a depth-%d stack counter recorded %d program counters where runtime.Callers returns %d for the same call stack and depth", depth, len(spcs), len(pcs)), replay)
+		}
+		if len(pcs) > 32 {
+			res.Hit("stack-deeper-than-32")
+		}
 		frames := c15Frames(spcs)
 		if len(frames) >= 3 {
 			res.Distinct(fmt.Sprint(spcs))
@@ -239,7 +244,7 @@ func c15Stacks(t *testing.T) {
 			res.Sample(map[string]any{"case": i, "prog": fmt.Sprint(prog), "depth": depth, "frames": len(frames), "name_bytes": len(name), "name_head": trunc40(strings.ReplaceAll(name, "\n", "⏎"))})
 		}
 	}
-	res.Require("truncated", "untruncated", "generic-frame", "ditto-used", "via-file")
+	res.Require("truncated", "untruncated", "generic-frame", "ditto-used", "via-file", "stack-deeper-than-32")
 	if err := res.Write(); err != nil {
 		t.Fatal(err)
 	}
